@@ -41,8 +41,8 @@
    Observation O of one execution (gateway-side ground truth + what the scanner reported):
      O.cfg    = [host, port, tester, start, stop, reversed, timeout (ms)]
      O.probes   sequence (in the order the gateway saw them) of
-                [src, dst, d, ackdl, ackdt, anss]   request <<src, dst, d>>; a proper Ack was sent ackdt ms after the
-                                                    request and delivered (ackdl);
+                [src, dst, d, ack, ackdt, anss]     request <<src, dst, d>>; ack: a proper Ack was sent, ackdt ms after
+                                                    the request;
                 anss = sequence of [a, to, d, dt, dl]   diagnostic data frames sent for this probe: source a, target
                                                     `to`, dt ms after the request, dl: delivered to the scanner
      O.repFile, O.repDb   sets of ECU addresses reported in ECUs.txt / handed to the database
@@ -74,10 +74,13 @@ P3_Order(O) ==
      IF O.cfg.reversed THEN O.probes[i].dst > O.probes[j].dst ELSE O.probes[i].dst < O.probes[j].dst
 
 FromProbed(p, x) == x.dl /\ x.a = p.dst /\ x.to = p.src
+\* sent by the gateway for the probed address; whether it could still be delivered is the scanner's business as long as
+\* the request timeout has not elapsed (a scanner that hangs up early must not be excused by "not delivered")
+SentFromProbed(p, x) == x.a = p.dst /\ x.to = p.src
 AckTime == 1000   \* gallia's default HSFZ acknowledge timeout (ack_timeout, docs/transports.md): used only to WEAKEN the demand
 AnsweredInTime(O, p) ==
-  /\ p.ackdl /\ p.ackdt < O.cfg.timeout /\ p.ackdt < AckTime
-  /\ \E k \in 1..Len(p.anss) : FromProbed(p, p.anss[k]) /\ p.anss[k].dt < O.cfg.timeout /\ IsAnswerTo(p.d, p.anss[k].d)
+  /\ p.ack /\ p.ackdt < O.cfg.timeout /\ p.ackdt < AckTime
+  /\ \E k \in 1..Len(p.anss) : SentFromProbed(p, p.anss[k]) /\ p.anss[k].dt < O.cfg.timeout /\ IsAnswerTo(p.d, p.anss[k].d)
 RespMust(O) == {O.probes[i].dst : i \in {j \in Idx(O) : Configured(O, O.probes[j]) /\ AnsweredInTime(O, O.probes[j])}}
 RespMay(O)  == {O.probes[i].dst : i \in {j \in Idx(O) : \E k \in 1..Len(O.probes[j].anss) :
                                                             FromProbed(O.probes[j], O.probes[j].anss[k])}}
